@@ -112,14 +112,25 @@ theorem no_global_writers : PyxelModel.Generated.C04.globalSeedCalls = [] := by 
 /-- no model creates a private generator without a seed (it would ignore pipeline and model seeds) -/
 theorem no_unseeded_generators : PyxelModel.Generated.C04.unseededGenerators = [] := by decide
 
-/-- every running mode hands its pipeline seed down to where the pipeline runs -/
+/-- the source files in which a running mode hands its pipeline seed down to where the pipeline runs -/
+def seedPlumbingFiles : List String :=
+  ["pyxel/exposure/exposure.py", "pyxel/observation/observation.py", "pyxel/observation/observation_dask.py",
+   "pyxel/calibration/calibration.py", "pyxel/calibration/fitting_datatree.py"]
+
+/-- every running mode hands its pipeline seed down to where the pipeline runs: every call site (in the whole
+package) of anything that takes a `pipeline_seed` forwards the caller's seed, and each mode's file has such a site -/
 theorem all_modes_pass_seed :
-    PyxelModel.Generated.C04.modesPassSeed.length = 9 ∧
+    (∀ f ∈ seedPlumbingFiles, f ∈ PyxelModel.Generated.C04.modesPassSeed.map Prod.fst) ∧
     ∀ m ∈ PyxelModel.Generated.C04.modesPassSeed, m.2 = true := by
   decide
 
-/-- `set_random_seed` has the modelled shape: lock, save, try seed/yield, finally restore; no-op on None -/
-theorem context_manager_shape : PyxelModel.Generated.C04.seedContextShape =
-    ["lock", "save", "try", "seed", "yield", "finally", "restore", "else", "yield"] := by decide
+/-- `set_random_seed` has the modelled effects, in the modelled order: take the lock, save the state, seed, run the
+body, restore the state (also when the body fails, before the error propagates), release the lock; with no seed it
+only runs the body.  The traces are observed on the code (generated table), not read off its text. -/
+theorem context_manager_shape : PyxelModel.Generated.C04.seedTraces =
+    [("normal", ["acquire", "save", "seed", "body", "restore", "release"]),
+     ("error", ["acquire", "save", "seed", "body", "restore", "release", "propagated"]),
+     ("none", ["body"]),
+     ("default", ["body"])] := by decide
 
 end PyxelModel.C04
